@@ -1,3 +1,4 @@
+import time
 """C11 - published JSON Schemas are valid and every valid document conforms.
 
 Proof part (rocq/Props/C11.v): matcher and validator agree with their specifications; every shipped
@@ -657,30 +658,43 @@ def check_schema_files(c):
     return files
 
 
-def judge(c, stream, items, state):
-    """items: [(label, input document)]. Runs Go, validates outputs (accepted) or inputs (rejected)."""
-    res = go_run([d for _, d in items])
+def judge(c, stream, items, state, pre=None, doc_only=False):
+    """items: [(label, input document)]. Runs Go (or takes its results from pre), validates outputs (accepted) or inputs
+    (rejected). doc_only: the envelope around the document is not validated again (its schema says nothing about the document)."""
+    res = pre if pre is not None else go_run([d for _, d in items])
     pairs, meta = [], []
     for (label, d), (acc, out, kind) in zip(items, res):
         state["go"][kind] = state["go"].get(kind, 0) + 1
         if acc:
-            for sid, inst in targets(out):
+            tg = targets(out)
+            if doc_only and len(tg) > 1 and tg[0][0].endswith("/envelope"):
+                tg = tg[1:]
+            for sid, inst in tg:
                 pairs.append((sid, inst))
                 meta.append((label, d, True, out))
         else:
             for sid, inst in (targets(d) if isinstance(d, dict) else []):
                 pairs.append((sid, inst))
                 meta.append((label, d, False, None))
-    try:
-        mv = model_validate(pairs)
-    except cl.BadNumber:
-        mv = []
-        for p in pairs:
-            try:
-                mv.extend(model_validate([p]))
-            except cl.BadNumber:
-                mv.append("skipped-number")
-    pv = py_validate(pairs)
+    def _model():
+        try:
+            return model_validate(pairs)
+        except cl.BadNumber:
+            out_ = []
+            for p in pairs:
+                try:
+                    out_.extend(model_validate([p]))
+                except cl.BadNumber:
+                    out_.append("skipped-number")
+            return out_
+    box = {}
+    th_ = threading.Thread(target=lambda: box.__setitem__("mv", _model()))
+    th_.start()                                  # the two readings of the schema side by side
+    pv = py_validate(pairs, nproc=16)
+    th_.join()
+    mv = box.get("mv")
+    if mv is None:
+        mv = _model()
     for (sid, inst), (label, d, acc, out), m, p in zip(pairs, meta, mv, pv):
         if m == "skipped-number":
             continue
@@ -822,6 +836,9 @@ def check_patterns(c, n):
                      {"correspondence": "oracle:C11:formats", "string": d, "model": m, "python": p}, no_input=True)
 
 
+T0 = time.time()
+
+
 def run(c):
     quick = c.tier == "quick"
     if not std_builds(c):
@@ -852,6 +869,7 @@ def run(c):
     load_enums()
 
     check_schema_files(c)
+    c.cov.setdefault("phase_s", {})["schema-files"] = round(time.time() - T0, 1)
 
     state = {"go": {}, "verdicts": {}, "disagree": 0, "reported": 0, "finding_locations": {}}
     ex = example_outputs()
@@ -862,6 +880,7 @@ def run(c):
         if doc_of(env) is not None:
             items.append(("example-doc:" + name, doc_of(env)))
     judge(c, "examples", items, state)
+    c.cov.setdefault("phase_s", {})["examples"] = round(time.time() - T0, 1)
     # rich synthetic documents: every member of every registered type populated (harness/c14rich.go), repaired by name rules
     # into documents the library accepts (tools/lib/richvalid.py) - the examples leave most optional members of most types unused
     import richvalid
@@ -877,6 +896,7 @@ def run(c):
             continue
         ritems.append(("rich:" + os.path.basename(f), richvalid.make_valid(d)))
     judge(c, "rich", ritems, state)
+    c.cov.setdefault("phase_s", {})["rich"] = round(time.time() - T0, 1)
     c.cov["rich_documents"] = len(ritems)
     for name, env in ex[:2]:
         c.sample({"stream": "examples", "file": name, "schema": (doc_of(env) or {}).get("$schema")}, limit=2)
@@ -887,6 +907,7 @@ def run(c):
     for i in range(0, len(gen), 10000):
         judge(c, "generated", gen[i:i + 10000], state)
     c.sample({"stream": "generated", "document": gen[0][1]}, limit=3)
+    c.cov.setdefault("phase_s", {})["generated"] = round(time.time() - T0, 1)
 
     nmut = 1500 if quick else 140000
     stats = {}
@@ -919,15 +940,17 @@ def run(c):
                 stats["enum-subkey"] = stats.get("enum-subkey", 0) + 1
     for i in range(0, len(muts), 10000):
         judge(c, "mutations", muts[i:i + 10000], state)
+    c.cov.setdefault("phase_s", {})["mutations"] = round(time.time() - T0, 1)
     # systematic single changes: Go first; only what the library ACCEPTS needs the schema's verdict
     sysi = systematic(c.rng, [(n, b) for n, b in bases if not (quick and n.endswith("#doc"))] + [(n, d) for n, d in ritems if not quick or ["bill-invoice", "bill-order", "bill-delivery.", "bill-payment."][c.seed % 4] in n], quick, rich_rot=c.seed // 4)
-    acc_items = []
+    acc_items, acc_pre = [], []
     for i in range(0, len(sysi), 20000):
         chunk = sysi[i:i + 20000]
         for (label, d), (acc, out, kind) in zip(chunk, go_run([d for _, d in chunk])):
             c.count("systematic/go-" + ("accepted" if acc else "rejected"), 1, label)
             if acc:
                 acc_items.append((label, d))
+                acc_pre.append((acc, out, kind))
     # every member of the four large rich documents left out, one at a time (all positions on every run): the library is
     # asked first; of the accepted ones only those whose OUTPUT still carries the member - as some zero value the
     # serialiser made up ("", null, 0000-00-00, {} ...) - need the schema's verdict
@@ -969,14 +992,18 @@ def run(c):
             if node in ("", None, "0000-00-00", {}, [], 0, "0", False) or (isinstance(node, str) and node.startswith("0000-00-00")):
                 ndrop_zero += 1
                 acc_items.append((label, d))
+                acc_pre.append((acc, out, kind))
     c.cov["systematic"] = {"single_changes": len(sysi), "accepted_by_go": len(acc_items), "enumerated_members": {k: len(v) for k, v in ENUMS.items()},
                            "rich_members_dropped": len(drops), "dropped_and_accepted": ndrop_acc, "accepted_with_a_made_up_zero_value": ndrop_zero}
+    c.cov.setdefault("phase_s", {})["systematic-go"] = round(time.time() - T0, 1)
     for i in range(0, len(acc_items), 10000):
-        judge(c, "systematic", acc_items[i:i + 10000], state)
+        judge(c, "systematic", acc_items[i:i + 10000], state, pre=acc_pre[i:i + 10000], doc_only=True)
+    c.cov.setdefault("phase_s", {})["systematic-judged"] = round(time.time() - T0, 1)
     c.sample({"stream": "mutations", "change": muts[0][0], "document_schema": muts[0][1].get("$schema")}, limit=4)
     c.cov["mutation_kinds"] = stats
 
     check_patterns(c, 150 if quick else 5000)
+    c.cov.setdefault("phase_s", {})["patterns"] = round(time.time() - T0, 1)
 
     c.cov["go_outcomes"] = state["go"]
     c.cov["verdicts(go_accepted, model, python)"] = {"%s/%s/%s" % k: v for k, v in sorted(state["verdicts"].items(), key=str)}
